@@ -477,11 +477,12 @@ def run_impl(cases, jit, timeout_per_batch=None, tag="w", case_timeout=20, check
     results = [None] * len(cases)
     todo = list(range(len(cases)))
     hangs = 0
+    crashes = 0
     startup_timeout = 600 if jit else 120
     while todo:
-        if hangs >= MAX_HANGS:
+        if hangs >= MAX_HANGS or crashes >= 6:
             for i in todo:
-                results[i] = ("skipped", "after repeated hangs", None)
+                results[i] = ("skipped", "after repeated hangs" if hangs >= MAX_HANGS else "after repeated crashes of the worker process", None)
             break
         with open(base + ".cases", "w") as f:
             json.dump([cases[i] for i in todo], f)
@@ -552,6 +553,7 @@ def run_impl(cases, jit, timeout_per_batch=None, tag="w", case_timeout=20, check
         else:
             err = proc.stderr.read().decode()[-300:] if proc.stderr else ""
             proc.wait()
+            crashes += 1
             if got < len(todo):
                 results[todo[got]] = ("crash", f"worker exited with {proc.returncode}: {err}", None)
                 todo = todo[got + 1:]
